@@ -135,11 +135,17 @@ class Check(PropertyCheck):
                   "every guard on the INPUT: boundary without CR and double quote, and --boundary occurring in no key, value or content type; "
                   "the encoder's refusal is derived too) and multipart_roundtrip_counterexample (F-C34a); "
                   "form_view_roundtrip (urlencoded form: pairs read back, content type reset to the bare form type whatever charset it carried, "
-                  "write-back is the identity) and query_view_roundtrip with urllib's urlencode/parse_qsl and the text codec as parameters; "
+                  "write-back is the identity; query_view_roundtrip is its query analogue on abstract target components and, given the law, true by "
+                  "the shape of the definitions — the evidence for the query view is query_view_roundtrip_target); "
+                  "the write-back clause view by view (request cookies: view_writeback_idempotent for all headers; query: query_writeback_partial + "
+                  "query_writeback_counterexample F-C34g; form: form_writeback_counterexample F-C34e next to form_view_roundtrip; response cookies: "
+                  "set_cookie_writeback_partial + set_cookie_writeback_counterexample F-C34f; path components: "
+                  "path_components_writeback_counterexample F-C34d), each false clause with its full statement as a def; "
                   "path_components_roundtrip and query_view_roundtrip_target on the RAW request target (urlparse's cutting at # ? and ;params "
                   "imported from the C33 transcription, urlunparse's re-assembly; quote/unquote resp. urlencode/parse_qsl as parameters with laws): "
                   "any non-empty components assigned to any target (leading //, ;params, several ?, #, *) read back, params/query/fragment kept. "
-                  "Cookie, Set-Cookie, multipart and url.encode's style imitation are tied differentially to the real functions and views; all "
+                  "Cookie, Set-Cookie (incl. the one-header-per-cookie view wrappers getSetCookies/setSetCookies: scview/scset), multipart, url.encode's "
+                  "style imitation and the form view's content-type test and header reset (formglue) are tied differentially to the real functions and views; all "
                   "six views are checked on the real Request/Response objects by the oracle.")
     level_note = ("PARTIAL: in the multipart theorems encoder and decoder use the same boundary (F-C34c is the case where urllib.quote changes it); "
                   "the delimiter guard of multipart_roundtrip_partial is now derived from input-level conditions (noEarly_piece, multipart_roundtrip). form_view_roundtrip and query_view_roundtrip assume the "
@@ -612,6 +618,9 @@ class Check(PropertyCheck):
         elif k == "multipart":
             if obs["set"] != "ok": return []          # the encoder refuses a value equal to the delimiter line: allowed
             parts = [(unhx(a), unhx(b)) for a, b in case["parts"]]
+            # an existing multipart content type (and with it the boundary the request carries) is left alone by the setter
+            if (case["ct"] or "").lower().startswith("multipart/form-data") and obs["ct2"] != case["ct"]:
+                return ["multipart[other]: the setter rewrote the Content-Type %r to %r" % (case["ct"], obs["ct2"])]
             bnd = self._boundary(obs["ct2"])
             delim = b"--" + (bnd or b"")
             rep = bnd is not None and all(kk != b"" and delim not in kk and delim not in vv for kk, vv in parts)
